@@ -27,6 +27,9 @@ Inductive pmt :=
 
 Definition b2n (b : bool) : N := if b then 1 else 0.
 
+(* order of reported / chosen (position, hash) pairs: by position in the block *)
+Definition pos_lt (a b : N * hash) : Prop := fst a < fst b.
+
 (* LSB-first value of up to eight flag bits; the packed flag bytes *)
 Fixpoint bits_value (fl : list bool) : N :=
   match fl with [] => 0 | b :: t => b2n b + 2 * bits_value t end.
